@@ -39,6 +39,7 @@ import (
 //	jump <c> | jumpend <d>      -> ok at=<c> rem=<..>   (odometer state after c = L^v - d successful calls, c < L^v)
 //	drain <max>                 -> count=<c> eof=<bool> distinct=<d> rem=<r> fnv=<hex>
 //	json                        -> <scenario>   (last scenario through json.Marshal/json.Unmarshal)
+//	jsonfilelit <scen> <scen>   -> <scen> || <scen> || <first again> after=<r>   (two scenarios through one file)
 //	jsonfile                    -> settings=n,t,k,v,ticks,shuffle,seed remaining=<r> <scenario> after=<r>
 //	                               (last scenario through ToJSON/WriteScenario/Close/FromJSON/NextScenario)
 //	jsonlit <scenario>          -> <scenario>   (literal scenario through json.Marshal/json.Unmarshal)
@@ -573,6 +574,38 @@ func (f *twinsFam) op(a []string) string {
 			return "reject:unmarshal"
 		}
 		return canonScenario(back)
+	case "jsonfilelit":
+		// a scenario FILE with two literal scenarios, read back through the JSON scenario source
+		if len(a) != 3 {
+			return "bad-op"
+		}
+		s1, ok1 := parseScenario(a[1])
+		s2, ok2 := parseScenario(a[2])
+		if !ok1 || !ok2 {
+			return "bad-op"
+		}
+		var buf bytes.Buffer
+		wr, err := twins.ToJSON(f.settings, &buf)
+		if err != nil {
+			return "reject:tojson"
+		}
+		if wr.WriteScenario(s1) != nil || wr.WriteScenario(s2) != nil || wr.Close() != nil {
+			return "reject:write"
+		}
+		src, err := twins.FromJSON(&buf)
+		if err != nil {
+			return "reject:fromjson"
+		}
+		b1, e1 := src.NextScenario()
+		if e1 != nil {
+			return "reject:next"
+		}
+		c1 := canonScenario(b1) // before the source is asked again
+		b2, e2 := src.NextScenario()
+		if e2 != nil {
+			return "reject:next"
+		}
+		return fmt.Sprintf("%s || %s || %s after=%d", c1, canonScenario(b2), canonScenario(b1), src.Remaining())
 	case "jsonfile":
 		if !f.haveLast {
 			return "bad-op"
